@@ -127,6 +127,28 @@ class Fn(object):
                 return i
         return i
 
+    def const(self, i):
+        """Integer value of expression i if clang folded it (looks through
+        parentheses / implicit nodes / casts from the outside in)."""
+        while i is not None and i >= 0:
+            st = self.stmts[i]
+            if "cv" in st:
+                return int(st["cv"])
+            if st["k"] == "IntegerLiteral":
+                return int(st["v"])
+            if st["k"] in TRANSPARENT or st["k"] in EXPLICIT_CASTS:
+                ch = [c for c in st["c"] if c is not None and c >= 0]
+                if not ch:
+                    return None
+                i = ch[0]
+                continue
+            if st["k"] == "DeclRefExpr" and st["ref"]["k"] == "global" and self.prog is not None:
+                for g in self.prog.globals:
+                    if g["q"] == st["ref"].get("q") and g.get("value") is not None and not g.get("dependent"):
+                        return int(g["value"])
+            return None
+        return None
+
     def calls(self, root=None):
         for i in self.walk(root):
             st = self.stmts[i]
